@@ -34,7 +34,15 @@ if not ok:
     model_ok = ok2
 ok, out = ck.coq_props() if model_ok else (False, "model does not compile")
 if not ok:
-    broken.append(("Props/C04.v (relevant_in_key / checks_not_in_key / protocol_shape / env_reads_covered_partial / theorems)", out[-3000:]))
+    # name the statement that no longer checks: the Theorem preceding the reported line of Props/C04.v
+    name = "?"
+    m = re.search(r'File "[^"]*Props/C04\.v", line (\d+)', out)
+    if m:
+        for i, ln in enumerate(open(os.path.join(COQ, "Props", "C04.v")).read().split("\n"), 1):
+            t = re.match(r"\s*Theorem\s+(\w+)", ln)
+            if t and i <= int(m.group(1)):
+                name = t.group(1)
+    broken.insert(0, ("Props/C04.v:%s" % name, out[-3000:]))
 
 # ---------------------------------------------------------------- 2. the real binary over histories
 exe_sc, out = ck.build_repo_cmd("./cmd/staticcheck", "staticcheck-c04")
@@ -84,7 +92,8 @@ args = [exe, "-work", work, "-out", res, "-seed", str(ck.seed), "-bin", ",".join
 if ck.thorough():
     args += ["-hist", "60", "-steps", "8", "-par", "8", "-thorough"]
 else:
-    args += ["-hist", "5", "-steps", "6", "-par", "8"]
+    # VERIF_C04_HIST: debugging aid (mutation testing): number of random histories in the quick tier
+    args += ["-hist", os.environ.get("VERIF_C04_HIST", "5"), "-steps", "6", "-par", "8"]
 if envflip:
     args += ["-envflip", ",".join(sorted(set(envflip)))]
 env = dict(GOENV)
